@@ -577,6 +577,44 @@ def kind_of(fname):
             "script.ld": "linker-script", "vers.map": "version-script", "exports.txt": "export-list", "rsp.txt": "response-file"}[fname]
 
 
+def _canon_field(cls):
+    """field of a mutation without its container: `ar-member.shdr.sh_size` -> `shdr.sh_size`, `ar.flips` -> `flips`"""
+    if cls.startswith("ar-member."):
+        cls = cls[len("ar-member."):]
+    return "flips" if cls.endswith("flips") else cls
+
+
+def _known_by_site():
+    """{(field, site): key} and {site: key} of the open C22 findings whose key names a precise panic site."""
+    import json
+    by_field, by_site = {}, {}
+    try:
+        for f in json.load(open(os.path.join(runner.VERIF, "known_findings.json")))["findings"]:
+            if f.get("property") == "C22" and f.get("status") == "open" and f["key"].count(":") >= 3:
+                _, kind, cls, site = f["key"].split(":", 3)
+                if site.startswith("panic@") and kind in ("object", "archive", "thin-archive"):
+                    by_field.setdefault((_canon_field(cls), site), f["key"])
+                    by_site.setdefault(site, f["key"])
+    except (OSError, ValueError, KeyError):
+        pass
+    return by_field, by_site
+
+
+def known_key(kind, cls, crash, key):
+    """A recorded finding is identified by the corrupted field and the panic site: the same panic reached through another
+    container (archive member, thin archive) is the same finding, and random bit flips may hit any recorded field."""
+    if kind not in ("object", "archive", "thin-archive") or not crash.startswith("panic@"):
+        return key
+    by_field, by_site = KNOWN_BY_SITE
+    fld = _canon_field(cls)
+    if fld == "flips":
+        return by_site.get(crash, key)
+    return by_field.get((fld, crash), key)
+
+
+KNOWN_BY_SITE = _known_by_site()
+
+
 # regression corpus: crashes found (and fixed or recorded) earlier; always run first
 def regression_cases(d):
     cases = []
@@ -844,6 +882,7 @@ def run(ctx):
                 n_err += 1
             continue
         key = f"c22:{kind}:{cls}:{crash}"
+        key = known_key(kind, cls, crash, key)
         crashes.setdefault(key, []).append((desc, argv, fname, blob, rc, err))
     ctx.count("outcome", "linked", n_ok)
     ctx.count("outcome", "clean-error", n_err)
